@@ -72,4 +72,16 @@ def feederEntry (src owner : Str) : Option Str :=
   | some _ => some (src ++ ':' :: trimHexZeroes owner)
   | none => none
 
+/-! ### the feeder's owner lookup -/
+
+def lowerStr (s : Str) : Str := s.map Char.toLower
+
+/-- the `eth_call` the reference feeder's Ethereum subscriber sends for `ownerOf(token)`: the contract with a `0x` prefix, and the
+selector 0x6352211e followed by the token id as a 32-byte big-endian word (`common.HexToHash`) -/
+def ownerOfCall (contract token : Str) : Str × Str :=
+  let to := match contract with
+    | '0' :: 'x' :: _ => contract
+    | _ => '0' :: 'x' :: contract
+  (lowerStr to, "0x6352211e".toList ++ bytesHex (fixBytes 32 (fromHex token)))
+
 end Settlus
